@@ -34,7 +34,11 @@ CH1 = [0x61, 0x20, 0x7E, 0x22, 0x5C, 0x2D]
 CH2 = [0xE9, 0x80, 0x7FF, 0x436]
 CH3 = [0x4E2D, 0x800, 0xFFFF, 0xD7FF, 0xE000, 0x20AC]
 CH4 = [0x1F600, 0x10000, 0x10FFFF]
-ALLCH = CH1 + CH2 + CH3 + CH4
+# scalars at the boundaries of the second-octet ranges of Table 3-7 (E0 A0..BF, ED 80..9F, F0 90..BF, F4 80..8F)
+# and of the neighbouring lead bytes
+EDGE = [0x0800, 0x0FBF, 0x0FC0, 0x0FFF, 0x1000, 0xCFFF, 0xD000, 0xD7FF, 0xE000, 0xFFFF,
+        0x10000, 0x10FFF, 0x3F000, 0x3FFFF, 0x40000, 0xFFFFF, 0x100000, 0x10FFFF, 0x80, 0xBF, 0xC0, 0x7FF]
+ALLCH = CH1 + CH2 + CH3 + CH4 + EDGE
 
 
 # ---------------------------------------------------------------------------------------
@@ -428,7 +432,8 @@ def key_units():
     global UNITS
     if UNITS is None:
         u = {}
-        for cp in [0x61, 0x7E, 0x20, 0x5B, 0x80, 0x7FF, 0x800, 0xD7FF, 0xE000, 0xFFFF, 0x10000, 0x10FFFF, 0x436, 0x4E2D, 0x1F600]:
+        for cp in [0x61, 0x7E, 0x20, 0x5B, 0x80, 0x7FF, 0x800, 0xD7FF, 0xE000, 0xFFFF, 0x10000, 0x10FFFF, 0x436, 0x4E2D, 0x1F600,
+                   0x0FFF, 0x1000, 0x3FFFF, 0x40000, 0x100000]:
             u["c%X" % cp] = utf8(cp)
         u.update({"cr": [13], "lf": [10], "crlf": [13, 10], "lfcr": [10, 13], "bs": [8], "tab": [9],
                   "up": [27, 91, 65], "down": [27, 91, 66], "right": [27, 91, 67], "left": [27, 91, 68],
@@ -800,7 +805,7 @@ def scalar_ranges(tier, rng):
         edges = list(range(0x20, 0x110000, 0x8000)) + [0x110000]
         return [{"m": "scalar_range", "lo": a, "hi": b} for a, b in zip(edges, edges[1:])]
     out = []
-    for c in [0x20, 0x7F, 0x80, 0x7FF, 0x800, 0xD7FF, 0xE000, 0xFFFF, 0x10000, 0x10FFFF]:
+    for c in [0x20, 0x7F, 0x80, 0x7FF, 0x800, 0xD7FF, 0xE000, 0xFFFF, 0x10000, 0x10FFFF] + EDGE:
         out.append({"m": "scalar_range", "lo": max(0x20, c - 16), "hi": min(0x110000, c + 17)})
     for _ in range(1500):
         c = rng.randrange(0x20, 0x110000)
@@ -827,7 +832,7 @@ def c17(ctx):
     # deleted, retyped, submitted inside the command name, inside a value and as a short option, recalled
     if ctx.tier == "quick":
         cps = set()
-        for c in [0x20, 0x7F, 0x80, 0x7FF, 0x800, 0xD7FF, 0xE000, 0xFFFF, 0x10000, 0x10FFFF]:
+        for c in [0x20, 0x7F, 0x80, 0x7FF, 0x800, 0xD7FF, 0xE000, 0xFFFF, 0x10000, 0x10FFFF] + EDGE:
             cps.update(range(max(0x20, c - 4), min(0x110000, c + 5)))
         cps.update(rng.randrange(0x20, 0x110000) for _ in range(500))
     else:
@@ -955,7 +960,7 @@ SIZES_HIST = [0, 1, 2, 3, 5, 9, 16, 33, 64]
 ALLSETS = ["leds", "mixed", "raw", "grouped", "tiny", "wide"]
 
 
-def cli_property(ctx, focus, mc_consts, mc_limit, profiles, rule, shards=12, extra_scripts=None, models=()):
+def cli_property(ctx, focus, mc_consts, mc_limit, profiles, rule, shards=12, extra_scripts=None, models=(), typed=0):
     vh = vlib.build_harness()
     rng = random.Random(ctx.seed)
     for module, cfg, consts in models:
@@ -977,6 +982,10 @@ def cli_property(ctx, focus, mc_consts, mc_limit, profiles, rule, shards=12, ext
         sid += n
     if extra_scripts:
         scripts += extra_scripts
+    if typed:
+        # sessions whose processor is derived from a declaration of the catalogue (parse errors, help, sub-commands)
+        scripts += typed_sessions(rng, typed, 8000001, load_catalogue()[1])
+        ctx.extra["derived_processor_sessions"] = typed
     validate_cli(ctx, vh, scripts, focus, focus.lower(), shards=shards)
     ctx.extra["sessions"] = len(scripts)
     return ctx.finish(rule)
@@ -1019,7 +1028,7 @@ def c06(ctx):
     return cli_property(ctx, "C06",
                         [dict(SMALL, WithApi=True)] if q else [dict(MED, WithApi=True)],
                         2500 if q else 200000,
-                        [(700 if q else 20000, prof), (300 if q else 10000, tight)], extra_scripts=systematic_api(ctx, "c06"),
+                        [(700 if q else 20000, prof), (300 if q else 10000, tight)], extra_scripts=systematic_api(ctx, "c06"), typed=150 if q else 4000,
                         rule="Cli::write / set_prompt inserted at every position of a set of short key sequences (systematic); "
                         "MC_Cli with write / set_prompt / handler prompt changes interleaved at every point (design level: the "
                         "modelled output protocol keeps Terminal in Sync in every reachable state); its transitions replayed on the "
@@ -1107,8 +1116,8 @@ def c15(ctx):
     return cli_property(ctx, "C15",
                         [dict(SMALL, WithApi=True)] if q else [dict(MED, WithApi=True)],
                         2000 if q else 100000,
-                        [(1000 if q else 30000, prof)],
-                        "all session kinds (keys, completion, recall, handler output, help requests, Cli::write, set_prompt, sinks "
+                        [(1000 if q else 30000, prof)], typed=200 if q else 5000,
+                        rule="all session kinds (keys, completion, recall, handler output, help requests, Cli::write, set_prompt, sinks "
                         "that accept writes only partially); after every successful call TLC requires that no write follows the "
                         "last flush in the recorded sink operations")
 
@@ -1236,7 +1245,64 @@ def c14_scenarios():
     add("raw", 8, 16, ["abc", "<left>", "<left>", W1, "x", W2, P, "y"], prompt=2)
     add("raw", 8, 16, [W2, "a", P, W1], prompt=1)
     add("tiny", 2, 3, ["a", "<tab>", "<enter>", "<up>", "é", "<down>"], out2)
+    # derived command sets: parse errors (the `error:` line), accepted lines with handler output, help
+    cat, by_id = load_catalogue()
+
+    def addd(decl, items, hs=None):
+        names = [list(n.encode("utf-8")) for n in decl_names(by_id, decl)]
+        S.append({"cfg": {"cmd": 32, "hcap": 16, "set": "raw", "decl": decl, "names": names, "prompt": 0}, "steps": scen(items, hs)})
+
+    addd("args", ["pos 300", "<enter>"], out1)
+    addd("args", ["pos", "<enter>", "pos 7 x", "<enter>"], out2)
+    addd("args", ["opts --zz", "<enter>", "nope", "<enter>"], out1)
+    addd("args", ["flags -z", "<enter>", "copy", "<enter>"], out1)
+    addd("args", ["pos 7 x extra", "<enter>"], out1)
+    addd("grp2", ["dev chan read 7", "<enter>", "dev chan bogus", "<enter>"], out3)
+    addd("grp2", ["dev -b x status", "<enter>", "de", "<tab>", "<enter>"], out1)
+    addd("grp", ["hel", "<tab>", "<enter>", "secret 3", "<enter>"], out1)
     return S
+
+
+def decl_names(by_id, rid):
+    """names of the commands of all visible groups of declaration rid, in declaration order"""
+    e = by_id[rid]
+    if e["kind"] == "group":
+        out = []
+        for m in e["members"]:
+            if not m["hidden"]:
+                out += decl_names(by_id, m["enum"])
+        return out
+    return [v["name"] for v in e["variants"]]
+
+
+def typed_sessions(rng, n, sid0, by_id, roots=("args", "top", "grp", "grp2", "names"), hs_out=0.4):
+    """Random sessions against derived command sets: plausible and implausible command lines with editing"""
+    out = []
+    for i in range(n):
+        rid = rng.choice(roots)
+        e = by_id[rid]
+        names = decl_names(by_id, rid)
+        paths = variant_paths(e, by_id)
+        steps = []
+        for _ in range(rng.randint(1, 4)):
+            path, v = rng.choice(paths)
+            alpha = variant_alphabet(v, by_id, rng)
+            toks = list(path) + [rng.choice(alpha) for _ in range(rng.randint(0, 3))]
+            if rng.random() < 0.15:
+                toks = ["help"] + toks[:2]
+            line = " ".join(t if t and " " not in t and '"' not in t else '"%s"' % t.replace('"', '\\"') for t in toks)
+            items = [line]
+            if rng.random() < 0.3:
+                items += ["<left>", "<bs>", "<tab>"]
+            items.append("<enter>")
+            if rng.random() < 0.3:
+                items.append("<up>")
+            hs = sessions.handler_script(rng, hs_out, 0.2)
+            steps += scen(items, hs or None)
+        out.append({"sid": sid0 + i, "cfg": {"cmd": rng.choice([24, 40, 64]), "hcap": rng.choice([0, 16, 64]), "set": "raw", "decl": rid,
+                                             "names": [list(x.encode("utf-8")) for x in names], "prompt": rng.choice([0, 1, 2])},
+                    "steps": steps})
+    return out
 
 
 FOLLOW_UP = scen(["x", "<enter>", "<up>", "<enter>", "ok", "<enter>"], {"chunks": [{"m": "w", "t": [122]}]})
@@ -1255,6 +1321,7 @@ def c14(ctx):
             "alphabet": sessions.W1, "hs_out": 0.7, "hs_prompt": 0.3,
             "w": {"word": 14, "enter": 12, "write": 6, "prompt": 4, "tab": 8, "up": 8, "down": 4, "left": 8, "quote": 4}}
     scenarios += [{"cfg": sc["cfg"], "steps": sc["steps"]} for sc in sessions.gen_sessions(rng, 15 if q else 300, prof)]
+    scenarios += [{"cfg": sc["cfg"], "steps": sc["steps"]} for sc in typed_sessions(rng, 8 if q else 150, 1, load_catalogue()[1])]
     for i, sc in enumerate(scenarios):
         sc["sid"] = i + 1
     # 1. fault-free run: number of sink operations of every call
@@ -1737,7 +1804,7 @@ def c03(ctx):
            "alphabet": ALLCH + sessions.W1, "hs_out": 0.3, "hs_prompt": 0.2, "partial": [0, 3],
            "w": {"char": 45, "left": 40, "right": 10, "bs": 4, "write": 6, "prompt": 5, "enter": 2, "tab": 3, "up": 3, "down": 1, "word": 4}}
     navs = sessions.gen_sessions(rng, 300 if q else 6000, nav, sid0=4000000)
-    scripts += tabs + navs
+    scripts += tabs + navs + typed_sessions(rng, 200 if q else 5000, 5000000, load_catalogue()[1])
     validate_cli(ctx, vh, scripts, "C03", "c03", shards=12)
     if not q:
         # Miri is slow here (about 15 s per session): a small sample of short boundary sessions
